@@ -1063,6 +1063,18 @@ impl ExecutionEngine {
                                 &mut results,
                             );
                         }
+                    } else if let Some(GraphId::Named(active_id)) = context.active_graph {
+                        // The row does not carry the graph variable (a subquery starts from the
+                        // empty mapping) but an enclosing GRAPH ?g is being evaluated for one
+                        // graph: the scan is confined to that active graph.
+                        Self::scan_one_graph(
+                            database,
+                            pattern,
+                            GraphId::Named(active_id),
+                            Some((variable, active_id)),
+                            &row,
+                            &mut results,
+                        );
                     } else {
                         let mut visible_graphs: Vec<_> =
                             context.dataset.named_graphs.iter().copied().collect();
